@@ -245,6 +245,17 @@ pub fn populate(f: &mut Fmt, recipe: Recipe, rng: &mut Rng) {
             let t = next_tag();
             f.add_file_lfn(0, &name11("ALONGF~1.TEX"), 0x20, &payload(t, 0, 300), Alloc::Seq, Some(&long));
         }
+        // a stretch of the root where long-name runs follow each other closely, so that runs
+        // straddle directory block boundaries (two neighbours straddling consecutive boundaries included)
+        if !fat16_root || root_room(f) >= 100 {
+            let n = 7 + rng.usize_below(4);
+            for i in 0..n {
+                let units = 14 + rng.usize_below(90);
+                let long: Vec<u16> = format!("packed long name number {} {}", i, "x".repeat(units)).chars().take(units.max(27)).collect::<String>().encode_utf16().collect();
+                let t = next_tag();
+                f.add_file_lfn(0, &name11(&format!("LP{}~1.TXT", i)), 0x20, &payload(t, 0, 20 + 13 * i), Alloc::Seq, Some(&long));
+            }
+        }
     }
     // directories
     if fat16_root && root_room(f) < 4 {
